@@ -528,3 +528,41 @@ def parse_dispatch(ck, rule):
         okp = any(prog.resolve_call(g, c) == "utils.add_binary_prefix" for c in calls_in(g.node))
         ck.check(okp, rule, g, "%s routes its string through add_binary_prefix" % q, "%s does not add the binary prefix" % q, g.node, "an unprefixed string would be parsed as decimal")
     ck.saw(f)
+
+
+def string_arms(ck, rule):
+    """C11.R6: both string arms of the normaliser (Python str/list/tuple and ndarray of str) parse with n_frac=None in raw mode and with the object's n_frac
+    otherwise, and never give raw integer codes a float value type (a binary64 cast loses codes above 2^53)."""
+    prog = ck.prog
+    fm = A.normaliser(prog)
+    n_raw = n_val = 0
+    seen = set()
+    for pf in fpaths(prog, fm):
+        if pf.end == "raise":
+            continue
+        cs = [ce for ce in pf.calls if isinstance(ce.raw.func, ast.Attribute) and ce.raw.func.attr == "str2num"]
+        if not cs:
+            continue
+        ce = cs[-1]
+        raw = truth_on_path(ast.Name(id="raw", ctx=ast.Load()), pf.guards)
+        nfa = ce.call.args[3] if len(ce.call.args) > 3 else None
+        arm = "ndarray-of-str" if any("np.str_" in src(g[0]) for g in pf.guards) else "str/list"
+        if raw is True:
+            n_raw += 1
+            ok1 = isinstance(nfa, ast.Constant) and nfa.value is None
+            if not ok1 and ("nf", arm) not in seen:
+                seen.add(("nf", arm))
+                ck.bad(rule, fm, "raw strings are parsed as integer codes (str2num with n_frac=None)", "%s arm passes n_frac=%s in raw mode" % (arm, src(nfa) if nfa is not None else None), ce.stmt,
+                       "the code is divided by 2^n_frac while parsing and truncated: raw round trip fails")
+            vd = pf.ret.elts[1] if isinstance(pf.ret, ast.Tuple) and len(pf.ret.elts) > 1 else None
+            if vd is not None and dotted(vd) in ("float", "np.float64") and ("vd", arm) not in seen:
+                seen.add(("vd", arm))
+                ck.bad(rule, fm, "raw integer codes parsed from strings keep an integer value type", "normaliser:%s raw codes typed float" % arm, pf.ret_stmt,
+                       "set_val casts the codes to binary64 before storing: codes with more than 53 significant bits (n_word 54..63) are altered")
+        elif raw is False:
+            n_val += 1
+            ok2 = dotted(nfa) == "self.n_frac"
+            if not ok2 and ("nfv", arm) not in seen:
+                seen.add(("nfv", arm))
+                ck.bad(rule, fm, "value strings are parsed with the object's n_frac", "%s arm passes n_frac=%s" % (arm, src(nfa) if nfa is not None else None), ce.stmt)
+    ck.check(n_raw > 0 and n_val > 0, rule, fm, "string arms examined: %d raw paths, %d value paths" % (n_raw, n_val), "string arms not found (%d/%d)" % (n_raw, n_val), fm.node)
